@@ -205,6 +205,7 @@ def _mk(base, pf, **kw):
             typ_class=pf.get("typ_class"),
             default_class=pf.get("default_class"),
             doc_class=pf.get("doc_class"),
+            doc_states_default=bool(pf.get("doc_states_default")),
             param_kind=pf.get("kind"),
             after_defaulted=pf.get("after_defaulted"),
             idx=pf.get("idx"),
